@@ -12,10 +12,16 @@ pub fn agree_case(fam: &Family, enc: Enc, a: u32, b: u32, loc: &mut Local) -> Ve
     let (pa, pb) = (&fam.enc(enc)[a as usize], &fam.enc(enc)[b as usize]);
     let mut cl = vec![];
     for op in OPS {
-        let (x, y) = (call_full(pa, pb, op, Ft::F64, Pairing::MM), call_full(pa, pb, op, Ft::F32, Pairing::MM));
+        let (x, y) = (
+            call_full(pa, pb, op, Ft::F64, Pairing::MM),
+            call_full(pa, pb, op, Ft::F32, Pairing::MM),
+        );
         loc.transitions += 2;
         if x.events != y.events {
-            cl.push(format!("C10 f32-and-f64-process-different-numbers-of-sweep-events {}", op_name(op)));
+            cl.push(format!(
+                "C10 f32-and-f64-process-different-numbers-of-sweep-events {}",
+                op_name(op)
+            ));
         }
         match (x.res, y.res) {
             (Ok(r64), Ok(r32)) => {
@@ -35,9 +41,16 @@ pub fn replay(case: &Value, verbose: bool) -> Vec<String> {
     if case["kind"] == "agree" {
         let fam = family_cached(case["family"].as_str().unwrap());
         let enc = enc_from(case["enc"].as_str().unwrap_or("M"));
-        let (a, b) = (case["a"].as_u64().unwrap() as u32, case["b"].as_u64().unwrap() as u32);
+        let (a, b) = (
+            case["a"].as_u64().unwrap() as u32,
+            case["b"].as_u64().unwrap() as u32,
+        );
         if verbose {
-            println!("A = {}\nB = {}", hex(&fam.enc(enc)[a as usize]), hex(&fam.enc(enc)[b as usize]));
+            println!(
+                "A = {}\nB = {}",
+                hex(&fam.enc(enc)[a as usize]),
+                hex(&fam.enc(enc)[b as usize])
+            );
         }
         let mut loc = Local::default();
         return agree_case(&fam, enc, a, b, &mut loc);
@@ -50,7 +63,10 @@ pub fn run(tier: &str) -> i32 {
     silence_panics();
     let thorough = tier == "thorough";
     let want = Want::for_prop("C10");
-    let mut fams: Vec<(&str, Vec<Enc>)> = QUICK_COMPLEX.iter().map(|&n| (n, vec![Enc::M, Enc::U])).collect();
+    let mut fams: Vec<(&str, Vec<Enc>)> = QUICK_COMPLEX
+        .iter()
+        .map(|&n| (n, vec![Enc::M, Enc::U]))
+        .collect();
     if thorough {
         fams.extend(THOROUGH_COMPLEX.iter().map(|&n| (n, vec![Enc::M])));
     }
@@ -58,7 +74,11 @@ pub fn run(tier: &str) -> i32 {
         let fam = Family::new(name);
         let n = fam.cx.noperands();
         for enc in encs {
-            st.family(&format!("{name}/{}: f32 result == f64 result bit for bit on {} ordered pairs", enc.name(), n as u64 * n as u64));
+            st.family(&format!(
+                "{name}/{}: f32 result == f64 result bit for bit on {} ordered pairs",
+                enc.name(),
+                n as u64 * n as u64
+            ));
             (0..n).into_par_iter().for_each(|a| {
                 let mut loc = Local::default();
                 for b in 0..n {
@@ -79,10 +99,35 @@ pub fn run(tier: &str) -> i32 {
         }
     }
     // general-position table rounded to f32, single-precision tolerances
-    sweep_table(&st, "C10", &p_spec(9, st.seed, 1.0, true), Ft::F32, &want, if thorough { PairSet::All } else { PairSet::WithTriangle });
+    sweep_table(
+        &st,
+        "C10",
+        &p_spec(9, st.seed, 1.0, true),
+        Ft::F32,
+        &want,
+        if thorough {
+            PairSet::All
+        } else {
+            PairSet::WithTriangle
+        },
+    );
     if thorough {
-        sweep_table(&st, "C10", &p_spec(9, st.seed, 1.1 * 1048576.0, true), Ft::F32, &want, PairSet::WithTriangle);
-        sweep_table(&st, "C10", &p_spec(16, st.seed, 1.0, true), Ft::F32, &want, PairSet::TrianglesOnly);
+        sweep_table(
+            &st,
+            "C10",
+            &p_spec(9, st.seed, 1.1 * 1048576.0, true),
+            Ft::F32,
+            &want,
+            PairSet::WithTriangle,
+        );
+        sweep_table(
+            &st,
+            "C10",
+            &p_spec(16, st.seed, 1.0, true),
+            Ft::F32,
+            &want,
+            PairSet::TrianglesOnly,
+        );
     }
     finish(
         &st,
